@@ -566,7 +566,10 @@ class SVG:
 
                 group.append(new_el)
 
-                if _try_remove_group(group, push_opacity=False):
+                # a clip-path lives in the coordinate system of the <use>; pushed onto an
+                # instance that has its own transform it would move with that transform
+                clip_would_move = "clip-path" in group.attrib and "transform" in new_el.attrib
+                if not clip_would_move and _try_remove_group(group, push_opacity=False):
                     _inherit_attrib(group.attrib, new_el)
                     swaps.append((use_el, new_el))
                 else:
